@@ -14,7 +14,7 @@ ID = "C06"
 LEVEL = "exploration"
 TECHNIQUE = CLAIMS[ID]["technique"]
 RULE = (
-    "for every reading dimension m in {1,2,3,4} (+8 for the helper: sqrt(2m) exact) and threshold k in {0.5,1,3,5} and "
+    "for every reading dimension m in {1,2,3,4} (+8 for the helper: sqrt(2m) exact) and threshold k in {0.5,1,3,5, e, 1/3, 4e-7, 123.456789012345} and "
     "the disabled setting: NIS values {T-1ulp, T, T+1ulp, T/2, 4T, 1e6} around the double threshold T = k*sqrt(2m)+m, "
     "realised exactly in every summation order (unit innovation with S^-1 = diag(v,1,..); dense dyadic S^-1 and "
     "innovations for the exactly representable thresholds) for the helper functions, and through identity sensors with "
@@ -28,6 +28,8 @@ ASSUMPTIONS = [
 ]
 MS = [1, 2, 3, 4]
 KS = [0.5, 1.0, 3.0, 5.0]
+# thresholds that are not short decimals: a many-digit irrational, a repeating fraction, a tiny and a large one
+KS_EXTRA = [2.718281828459045, 1.0 / 3.0, 4e-07, 123.456789012345]
 
 
 def threshold(k, m):
@@ -44,10 +46,10 @@ def identity_def(m):
 
 def cases(tier, seed):
     for m in MS + [8]:
-        for k in KS + [None]:
+        for k in KS + KS_EXTRA + [None]:
             yield {"kind": "py-direct", "m": m, "k": k}
     for m in MS:
-        for k in KS + [None]:
+        for k in KS + KS_EXTRA + [None]:
             yield {"kind": "py-filter", "m": m, "k": k}
     from fv.props import c06_cpp
     yield from c06_cpp.cases(tier, seed)
